@@ -2,6 +2,8 @@ package guards
 
 import (
 	"fmt"
+	"go/constant"
+	"os"
 	"go/token"
 	"go/types"
 	"sort"
@@ -297,8 +299,52 @@ func (a *FuncAn) proverFor(s *State) *prover {
 			break
 		}
 	}
+	a.divisibilityFacts(p)
 	a.provers[s] = p
 	return p
+}
+
+// divisibilityFacts: where x%k == 0 is known for an atom x (x == k*q), every fact that mentions x is restated over the
+// quotient q and divided by the gcd of its coefficients, the constant rounded down -- all atoms are integers, so
+// x - 3*i - 1 >= 0 with x == 3*q gives q - i - 1 >= 0 (a whole stride is left, not just one byte).
+func (a *FuncAn) divisibilityFacts(p *prover) {
+	for _, rr := range a.rems {
+		if rr.q == nil || !(len(rr.X.t) == 1 && rr.X.C == 0 && rr.X.t[0].k == 1) {
+			continue
+		}
+		x := rr.X.t[0].a
+		if len(p.byAtom[x]) == 0 {
+			continue
+		}
+		p.steps = 0
+		if !p.prove(rr.r, 3, nil) || !p.prove(Scale(rr.r, -1), 3, nil) {
+			continue
+		}
+		idx := append([]int(nil), p.byAtom[x]...)
+		for _, fi := range idx {
+			f := p.facts[fi]
+			c := f.Coef(x)
+			if c == 0 || len(f.t) < 2 || len(f.t) > 6 {
+				continue
+			}
+			nf := Add(Add(f, AtomLin(x), -c), AtomLin(rr.q), c*rr.k)
+			d := int64(0)
+			for _, t := range nf.t {
+				d = gcd(d, t.k)
+			}
+			if d < 0 {
+				d = -d
+			}
+			if d <= 1 || nf.C%d == 0 {
+				continue // nothing gained by rounding
+			}
+			n := Lin{C: floorDiv(nf.C, d)}
+			for _, t := range nf.t {
+				n.t = append(n.t, term{a: t.a, k: t.k / d})
+			}
+			p.add(n)
+		}
+	}
 }
 
 // Entails: the facts that hold on entry of block b entail g >= 0.
@@ -343,9 +389,15 @@ func isNilConst(v ssa.Value) bool {
 func isBasic(t types.Type) bool { _, ok := t.Underlying().(*types.Basic); return ok }
 
 func (a *FuncAn) condFacts(s *State, cond ssa.Value, truth bool) {
+	if dbg := os.Getenv("LW_CFDEBUG"); dbg != "" && strings.Contains(a.Fn.String(), dbg) {
+		fmt.Fprintf(os.Stderr, "COND %s: %s = %s is %v\n", a.Fn.Name(), cond.Name(), cond.String(), truth)
+	}
 	s.truth[cond] = truth
 	defer a.releaseCFacts(s)
 	switch c := cond.(type) {
+	case *ssa.Phi:
+		a.shortCircuitFacts(s, c, truth)
+		return
 	case *ssa.UnOp:
 		if c.Op == token.NOT {
 			a.condFacts(s, c.X, !truth)
@@ -409,6 +461,10 @@ func (a *FuncAn) condFacts(s *State, cond ssa.Value, truth bool) {
 			v = a.cv(v)
 			if op == token.NEQ {
 				s.nonnil[v] = true
+				if dbg := os.Getenv("LW_CFDEBUG"); dbg != "" && strings.Contains(a.Fn.String(), dbg) {
+					ld, isLd := v.(*ssa.UnOp)
+					fmt.Fprintf(os.Stderr, "NONNIL %s: v=%s %T isLoad=%v sameBlock=%v noWriteAfter=%v\n", a.Fn.Name(), v.Name(), v, isLd, isLd && ld.Block() == c.Block(), isLd && noWriteAfter(ld))
+				}
 				if ld, ok := v.(*ssa.UnOp); ok && ld.Op == token.MUL && ld.Block() == c.Block() && noWriteAfter(ld) {
 					if p := a.pathOf(ld.X); p != nil {
 						s.nnPath[p.key()] = p
@@ -445,6 +501,9 @@ func (a *FuncAn) condFacts(s *State, cond ssa.Value, truth bool) {
 		}
 		if _, _, ok := a.E.intInfo(c.X.Type()); !ok {
 			return
+		}
+		if v := lenPositiveOperand(c, op); v != nil {
+			defer a.chunkLemma(s, v)
 		}
 		x, y := a.Lin(c.X), a.Lin(c.Y)
 		var nf []Lin
@@ -523,6 +582,78 @@ func (a *FuncAn) okFactsOf(s *State, call *ssa.Call, errIdx int) {
 	}
 }
 
+// shortCircuitFacts: cond is the boolean phi the SSA builder makes for `L && R` / `L || R` used as a value
+// (phi [Bc: false, Bv: R] for &&, phi [Bc: true, Bv: R] for ||; Bc ends in the branch on L, Bv is where R is
+// evaluated). The decided outcome (&& true, || false) fixes both operands; the other outcome is a disjunction, kept
+// as a conditional fact: "L as it must be for R to have been evaluated  =>  what R's outcome implies".
+func (a *FuncAn) shortCircuitFacts(s *State, phi *ssa.Phi, truth bool) {
+	if len(phi.Edges) != 2 || (phi.Comment != "&&" && phi.Comment != "||") {
+		return
+	}
+	isAnd := phi.Comment == "&&"
+	ci, vi := -1, -1
+	for i, e := range phi.Edges {
+		if k, ok := e.(*ssa.Const); ok && k.Value != nil && k.Value.Kind() == constant.Bool && constant.BoolVal(k.Value) == !isAnd {
+			ci = i
+		} else {
+			vi = i
+		}
+	}
+	if ci < 0 || vi < 0 {
+		return
+	}
+	bc, bv := phi.Block().Preds[ci], phi.Block().Preds[vi]
+	iff, ok := bc.Instrs[len(bc.Instrs)-1].(*ssa.If)
+	if !ok || len(bc.Succs) != 2 || bc.Succs[0] == bc.Succs[1] {
+		return
+	}
+	// the value of the branch condition of bc on the way towards R
+	var lval bool
+	switch {
+	case bc.Succs[0] == bv:
+		lval = true
+	case bc.Succs[1] == bv:
+		lval = false
+	default:
+		return // R is evaluated further down (nested short circuits): not handled
+	}
+	lcond := ssa.Value(iff.Cond)
+	for {
+		u, isNot := lcond.(*ssa.UnOp)
+		if !isNot || u.Op != token.NOT {
+			break
+		}
+		lcond, lval = u.X, !lval
+	}
+	r := phi.Edges[vi]
+	if truth == isAnd {
+		// && is true / || is false: R was evaluated and has this outcome
+		a.condFacts(s, lcond, lval)
+		a.condFacts(s, r, truth)
+		return
+	}
+	// the other outcome: if R was evaluated (L had the value lval) it came out as `truth`
+	if v, known := s.truth[lcond]; known && v == lval {
+		a.condFacts(s, r, truth)
+		return
+	}
+	tmp := NewState()
+	a.condFacts(tmp, r, truth)
+	for v := range tmp.nonnil {
+		s.cfacts = append(s.cfacts, cfact{gkey: lcond, gval: lval, nn: v})
+	}
+	for _, pv := range tmp.nnPath {
+		s.cfacts = append(s.cfacts, cfact{gkey: lcond, gval: lval, path: pv.(*apath)})
+	}
+	for _, f := range tmp.facts {
+		ff := f
+		s.cfacts = append(s.cfacts, cfact{gkey: lcond, gval: lval, lin: &ff})
+	}
+	if len(s.cfacts) > 24 {
+		s.cfacts = s.cfacts[:24]
+	}
+}
+
 // stridedLemma: x < B where x is a loop counter that starts at 0 and advances by a loop-invariant stride st >= 1
 // (x = phi(0, x + st)), and B is a multiple of st (the state knows B' % st == 0 for a B' with the same linear form):
 // then x is a multiple of st below the multiple B, hence x + st <= B. This is the idiom
@@ -566,6 +697,23 @@ func (a *FuncAn) stridedLemma(s *State, xv, bv ssa.Value) {
 	p := a.proverFor(s)
 	if !p.Entails(st.plus(-1)) {
 		return
+	}
+	// a constant stride and a bound that is provably a multiple of it (a padded buffer: L + (k - L%k))
+	if k, isC := ConstInt(step); isC && k >= 1 {
+		mult := false
+		if call, ok := bv.(*ssa.Call); ok {
+			if bi, isB := call.Call.Value.(*ssa.Builtin); isB && bi.Name() == "len" && len(call.Call.Args) == 1 {
+				mult = a.lenMultiple(call.Call.Args[0], k, s, 0)
+			}
+		}
+		if !mult {
+			mult = a.multipleAt(s, bl, k)
+		}
+		if mult {
+			delete(a.provers, s)
+			s.AddFact(Add(Add(bl, a.Lin(xv), -1), st, -1))
+			return
+		}
 	}
 	for _, b := range a.Fn.Blocks {
 		for _, ins := range b.Instrs {
@@ -644,6 +792,22 @@ func valueStale(v interface{}, b *ssa.BasicBlock) bool {
 	return false
 }
 
+// capChain asks for the capacity of v and, through phis, of the values it may come from, so that the capacity atoms
+// exist before the dataflow runs (joins then relate them like lengths).
+func (a *FuncAn) capChain(v ssa.Value, depth int) {
+	if depth > 4 {
+		return
+	}
+	a.CapOf(v)
+	if phi, ok := a.cv(v).(*ssa.Phi); ok {
+		for _, e := range phi.Edges {
+			if a.cv(e) != ssa.Value(phi) {
+				a.capChain(e, depth+1)
+			}
+		}
+	}
+}
+
 // edgeState: the facts that hold when control enters b from its idx-th predecessor p.
 func (a *FuncAn) edgeState(p, b *ssa.BasicBlock, idx int) *State {
 	ps := a.out[p]
@@ -678,6 +842,10 @@ func (a *FuncAn) edgeState(p, b *ssa.BasicBlock, idx int) *State {
 			l := a.LenOf(phi)
 			if len(l.t) == 1 && l.C == 0 {
 				phis = append(phis, phiRec{l.t[0].a, a.LenOf(phi.Edges[idx])})
+			}
+			// the capacity of a slice phi, when some slice expression or cap() asks for it
+			if cl, ok := a.capMemo[a.cv(phi)]; ok && len(cl.t) == 1 && cl.C == 0 {
+				phis = append(phis, phiRec{cl.t[0].a, a.CapOf(phi.Edges[idx])})
 			}
 			ptrPhis = append(ptrPhis, phi)
 		} else {
@@ -889,6 +1057,18 @@ func (a *FuncAn) join(A, B *State) *State {
 		}
 	}
 	a.joinCFacts(r, A, B)
+	if dbg := os.Getenv("LW_CFDEBUG"); dbg != "" && strings.Contains(a.Fn.String(), dbg) {
+		fmt.Fprintf(os.Stderr, "JOIN in %s: A.truth=%d B.truth=%d A.nonnil=%d B.nonnil=%d A.nnPath=%d B.nnPath=%d -> cfacts=%d\n", a.Fn.Name(), len(A.truth), len(B.truth), len(A.nonnil), len(B.nonnil), len(A.nnPath), len(B.nnPath), len(r.cfacts))
+		for k, v := range A.truth {
+			fmt.Fprintf(os.Stderr, "   A.truth %s=%v\n", keyString(k), v)
+		}
+		for k, v := range B.truth {
+			fmt.Fprintf(os.Stderr, "   B.truth %s=%v\n", keyString(k), v)
+		}
+		for _, c := range r.cfacts {
+			fmt.Fprintf(os.Stderr, "   cfact %s\n", c.id())
+		}
+	}
 	return r
 }
 
@@ -923,6 +1103,12 @@ func (a *FuncAn) run() {
 				a.Lin(v)
 			} else if isSeq(v.Type()) {
 				a.LenOf(v)
+			}
+			// capacities are tracked only for the slices that are re-sliced (their upper limit is the capacity)
+			if sl, ok := ins.(*ssa.Slice); ok {
+				if _, isSl := sl.X.Type().Underlying().(*types.Slice); isSl {
+					a.capChain(sl.X, 0)
+				}
 			}
 		}
 	}
@@ -1054,7 +1240,7 @@ func (a *FuncAn) isNonNil(s *State, v ssa.Value) bool {
 		}
 		return a.registryValueNonNil(s, x)
 	case *ssa.UnOp:
-		return a.registryValueNonNil(s, x)
+		return a.registryValueNonNil(s, x) || a.onceLoadNonNil(x)
 	case *ssa.Phi:
 		// all edges statically non-nil
 		for _, e := range x.Edges {
